@@ -25,6 +25,101 @@ HARNESSES = [{'id': 'c20_bsearch',
                                         'll_memcpy.0': 4},
                           'cap': 3000}}}]
 
+# ---- L1 record layer -------------------------------------------------------------------------------------------
+_DB = 'src/interrogatedb/'
+_REC_TUS = [_DB + 'interrogateType.cxx', _DB + 'interrogateFunction.cxx', _DB + 'interrogateComponent.cxx']
+_ASSERTS = ['-D_GLIBCXX_ASSERTIONS']
+
+
+def _rec(id, entry, desc, oracle, unwind=5, cap=600, tus=_REC_TUS, us=None):
+    return {'id': id, 'property': 'C20', 'src': 'c20_records.cxx', 'entry': entry, 'tus': tus,
+            'tuflags': _ASSERTS, 'hflags': _ASSERTS, 'desc': desc,
+            'domain': 'heap-allocated record, every vector of symbolic length 0..VMAX with symbolic contents, position symbolic over ALL of int',
+            'oracle': oracle,
+            # no large unwindset for the libc model loops: string lengths are 0/1 here and a bound of 80 on a memcpy whose
+            # length is symbolic costs 15 GB
+            'bounds': {'quick': {'defs': {'VMAX': 2}, 'unwind': unwind, 'unwindset': dict(us or {}), 'cap': cap},
+                       'thorough': {'defs': {'VMAX': 3}, 'unwind': unwind + 1, 'unwindset': dict(us or {}), 'cap': 3000}}}
+
+
+HARNESSES += [
+    _rec('c20_rec_type_vectors', 'harness_c20_rec_type_vectors',
+         'InterrogateType get_constructor/element/method/make_seq/cast/nested_type + number_of_*',
+         'in range => stored entry, out of range => 0, count == stored entries; no crash / memory-safety failure (_GLIBCXX_ASSERTIONS + CBMC pointer checks)'),
+    _rec('c20_rec_type_derivs', 'harness_c20_rec_type_derivs',
+         'InterrogateType get_derivation/derivation_has_upcast/get_upcast/downcast_is_impossible/has_downcast/get_downcast',
+         'in range => stored field / flag bit, out of range => 0 / false; count == stored entries',
+         us={'ll_memcpy.0': 80, 'll_memmove.0': 80, 'll_memmove.1': 80}),   # concrete 16-byte Derivation copies
+    _rec('c20_rec_type_enums', 'harness_c20_rec_type_enums',
+         'InterrogateType get_enum_value_name/scoped_name/comment/get_enum_value',
+         'in range => reference to the stored string / stored value, out of range => valid empty string / 0'),
+    _rec('c20_rec_alt_names', 'harness_c20_rec_alt_names',
+         'InterrogateComponent get_alt_name/get_num_alt_names/has_library_name/has_module_name',
+         'in range => stored string, out of range => valid empty string; library/module name null-safe'),
+    _rec('c20_rec_function', 'harness_c20_rec_function',
+         'InterrogateFunction get_c_wrapper/get_python_wrapper + every scalar accessor',
+         'default record neutral; in range => stored entry, out of range => 0; scalars return stored values'),
+    _rec('c20_rec_wrapper', 'harness_c20_rec_wrapper',
+         'InterrogateFunctionWrapper parameter_get_type/has_name/get_name/is_this/is_optional + every scalar accessor',
+         'default record neutral; in range => stored field, out of range => 0 / false / valid empty string'),
+    _rec('c20_rec_scalars', 'harness_c20_rec_scalars',
+         'every scalar accessor of InterrogateType, InterrogateElement, InterrogateManifest, InterrogateMakeSeq',
+         'default-constructed (= bogus) record is neutral for every accessor; accessors return the stored values / flag bits'),
+]
+
+# ---- L2 index layer --------------------------------------------------------------------------------------------
+_LOAD_LATEST = '_ZN19InterrogateDatabase11load_latestEv'
+# std::map nodes keep their value in an __aligned_membuf byte array (408 bytes for InterrogateType): CBMC only keeps arrays of up to 64
+# cells field-sensitive by default, beyond that every access to a record inside a map node goes through one monolithic array (x25 formula)
+_FAT_NODES = ['--max-field-sensitivity-array-size', '512']
+_IDX_TUS = [_DB + 'interrogateDatabase.cxx', _DB + 'interrogateType.cxx', _DB + 'interrogateFunction.cxx', _DB + 'interrogateComponent.cxx']
+
+
+def _idx(id, entry, desc, unwind=6, cap=600):
+    return {'id': id, 'property': 'C20', 'src': 'c20_index.cxx', 'entry': entry, 'tus': _IDX_TUS,
+            'cut': [_LOAD_LATEST],   # no file is requested: reaching load_latest is reported by the asserting auto stub
+            'cbmc_flags': _FAT_NODES,
+            'tuflags': _ASSERTS, 'hflags': _ASSERTS, 'desc': desc,
+            'domain': 'one new InterrogateDatabase per entry count 0..NENT, entries built in place, entry keys symbolic over all of int '
+                      '(strictly increasing), queried index symbolic over ALL of int',
+            'oracle': 'known index => address of the stored record; unknown => a record distinct from every stored one whose every field is '
+                      'neutral (0 / empty string / empty vector / null names); no crash, load_latest not reached',
+            'bounds': {'quick': {'defs': {'NENT': 2}, 'unwind': unwind, 'cap': cap},
+                       'thorough': {'defs': {'NENT': 3}, 'unwind': unwind + 1, 'cap': 3000}}}
+
+
+HARNESSES += [
+    _idx('c20_idx_type', 'harness_c20_idx_type', 'InterrogateDatabase::get_type over all of int'),
+    _idx('c20_idx_function', 'harness_c20_idx_function', 'InterrogateDatabase::get_function over all of int'),
+    _idx('c20_idx_wrapper', 'harness_c20_idx_wrapper', 'InterrogateDatabase::get_wrapper over all of int'),
+    _idx('c20_idx_manifest', 'harness_c20_idx_manifest', 'InterrogateDatabase::get_manifest over all of int'),
+    _idx('c20_idx_element', 'harness_c20_idx_element', 'InterrogateDatabase::get_element over all of int'),
+    _idx('c20_idx_make_seq', 'harness_c20_idx_make_seq', 'InterrogateDatabase::get_make_seq over all of int'),
+    {'id': 'c20_idx_enumerators', 'property': 'C20', 'src': 'c20_index.cxx', 'entry': 'harness_c20_idx_enumerators', 'tus': _IDX_TUS,
+     'cut': [_LOAD_LATEST], 'tuflags': _ASSERTS, 'hflags': _ASSERTS,
+     'desc': 'get_global_type/get_all_type/get_global_function/get_all_function/get_global_manifest/get_global_element + get_num_*',
+     'domain': 'six index vectors of symbolic length 0..VMAX with symbolic contents, position symbolic over ALL of int',
+     'oracle': 'count == number of stored entries; in range => stored index, out of range => 0; no crash',
+     'bounds': {'quick': {'defs': {'VMAX': 2}, 'unwind': 5, 'cap': 600}, 'thorough': {'defs': {'VMAX': 4}, 'unwind': 7, 'cap': 3000}}},
+]
+
+# ---- unique-name lookup through the database ---------------------------------------------------------------------
+_BSEARCH = '_ZN19InterrogateDatabase26binary_search_wrapper_hashEP24InterrogateUniqueNameDefS1_RKNSt7__cxx1112basic_stringIcSt11char_traitsIcESaIcEEE'
+HARNESSES += [
+    {'id': 'c20_by_unique_name', 'property': 'C20', 'src': 'c20_unique_name.cxx', 'entry': 'harness_c20_by_unique_name',
+     'tus': [_DB + 'interrogateDatabase.cxx'],
+     'desc': 'InterrogateDatabase::get_wrapper_by_unique_name on a database with one module registered in _modules_by_hash',
+     'domain': 'queried name: every NUL-free byte string of length 0..KLEN; module "LIBX" with 0..UMAX unique names in {a,b,c}^2 (sorted), '
+               'first_index in 1..10^6',
+     'oracle': 'first_index + offset when the name is LIBX + a table name, 0 otherwise; no crash (uncaught exception) for any length; '
+               'recursion terminates',
+     'nonterm_is_violation': True,
+     'bounds': {'quick': {'defs': {'KLEN': 7, 'UMAX': 2}, 'unwind': 10,
+                          'unwindset': {_BSEARCH: 4, 'll_strlen.0': 9, 'll_memcmp.0': 9, 'll_memcpy.0': 9}, 'cap': 600},
+                'thorough': {'defs': {'KLEN': 8, 'UMAX': 3}, 'unwind': 11,
+                             'unwindset': {_BSEARCH: 4, 'll_strlen.0': 10, 'll_memcmp.0': 10, 'll_memcpy.0': 10}, 'cap': 3000}}},
+]
+
 PROPERTY_INFO = {'C20': {'level': 'model_checking',
          'explanation': 'bounded symbolic execution (CBMC) of the real query-interface code lowered from /repo',
          'outside': 'databases larger than the bounds; lazily loaded files (load_latest is cut)',
